@@ -8,6 +8,7 @@ import (
 	sdk "github.com/cosmos/cosmos-sdk/types"
 
 	opchildtypes "github.com/initia-labs/OPinit/x/opchild/types"
+	ophosttypes "github.com/initia-labs/OPinit/x/ophost/types"
 )
 
 // C09: L2 bridged supply is conserved; withdrawals burn exactly what they record; one gap-free
@@ -444,7 +445,11 @@ func genC09(seed uint64, tier string, outdir string) *Report {
 					hook = Hook{Kind: "garbage", Raw: []byte{0xff, 0x01, 0x02}}
 				}
 				op := sc.Deposit(sender, seq, to, di, amt, hook)
-				switch r.Weighted([]int{80, 12, 4, 4}) {
+				switch r.Weighted([]int{76, 12, 4, 4, 4}) {
+				case 4: // a base denom at the length boundary L1 accepts (116..128 characters): its own, new L2 denom
+					bd := c07BoundaryDenoms(kk)
+					op.Base = bd[3+r.Intn(5)] // 115, 116, 117, 127, 128 characters
+					op.Denom = ophosttypes.L2Denom(sc.BridgeID, op.Base)
 				case 1:
 					op.Base = "uevil" // a different base denom for a (possibly) existing L2 denom
 				case 2:
